@@ -55,6 +55,8 @@ pub struct Slot<T> {
     pub flag: Arc<Flag>,
     pub out: Option<T>,
     pub label: String,
+    /// not polled while set, even when woken (an application task the scheduler has not got to yet)
+    pub held: bool,
 }
 
 /// Slots producing values of one type `T` (use an enum for heterogeneous futures).
@@ -72,7 +74,7 @@ impl<T> Default for Exec<T> {
 impl<T> Exec<T> {
     /// Add a future; it is polled at the next `run`. Returns its slot index.
     pub fn spawn(&mut self, label: &str, fut: impl Future<Output = T> + 'static) -> usize {
-        self.slots.push(Slot { fut: Some(Box::pin(fut)), flag: Flag::new(true), out: None, label: label.into() });
+        self.slots.push(Slot { fut: Some(Box::pin(fut)), flag: Flag::new(true), out: None, label: label.into(), held: false });
         self.slots.len() - 1
     }
 
@@ -86,7 +88,7 @@ impl<T> Exec<T> {
             let mut any = false;
             for i in 0..self.slots.len() {
                 let s = &mut self.slots[i];
-                if s.fut.is_none() || !s.flag.take() {
+                if s.fut.is_none() || s.held || !s.flag.take() {
                     continue;
                 }
                 any = true;
